@@ -300,7 +300,7 @@ Extended(ctx, vm, op) ==
         LET o == Num(ctx, Top(s, 1))
         IN IF ~o[1] THEN (IF Len(Top(s, 1)) > 4 THEN Unspec(vm) ELSE Fail(vm, "ANY"))
            ELSE IF op = OP_2MUL THEN [vm EXCEPT !.stack = Push(PopN(s, 1), Encode(IMul(o[2], IntFromSmall(2))))]
-           ELSE IF IsNeg(o[2]) /\ IsOdd(Mag(o[2])) THEN Unspec(vm)       \* floor or truncation: not fixed by the name
+           \* halving is division by two, and division (OP_DIV) truncates toward zero
            ELSE [vm EXCEPT !.stack = Push(PopN(s, 1), Encode(IDiv(o[2], IntFromSmall(2))))]
     ELSE \* MUL DIV MOD LSHIFT RSHIFT
         LET oa == Num(ctx, Top(s, 2))
